@@ -65,7 +65,7 @@ def guard_idiom(model, fi, name):
             # a helper of the repository that returns the idiom value
             ok = False
             for t in model.resolve_callee(d.func, f):
-                if t[0] == 'func' and returns_guard(model, t[1]):
+                if t[0] == 'func' and returns_guard(model, t[1], call=d):
                     ok = True
             if ok:
                 has_guard = True
@@ -84,6 +84,21 @@ def guard_idiom(model, fi, name):
                                     _is_guard_source(x) for x in ds)
         if _is_guard_source(d):
             has_guard = True
+        elif isinstance(d, ast.IfExp) and isinstance(
+                d.test, ast.Compare) and len(d.test.ops) == 1 and \
+                isinstance(d.test.comparators[0], ast.Constant) and \
+                d.test.comparators[0].value is None and (
+                    _is_guard_source(d.test.left) or (
+                        isinstance(d.test.left, ast.Name) and (
+                            d.test.left.id == name or
+                            pure_guard(d.test.left.id)))):
+            # get = getattr if g is None else g
+            a_, b_ = (d.body, d.orelse) if isinstance(
+                d.test.ops[0], ast.Is) else (d.orelse, d.body)
+            if norm(a_) == 'getattr' and norm(b_) == norm(d.test.left):
+                has_guard = True
+            else:
+                return False
         elif isinstance(d, ast.Name) and d.id != 'getattr' and \
                 d.id != name and pure_guard(d.id):
             # guard = md.guarded_getattr; ...; name = guard
@@ -96,12 +111,14 @@ def guard_idiom(model, fi, name):
             for anc in ancestors(asg):
                 if not (isinstance(anc, ast.If) and isinstance(
                         anc.test, ast.Compare) and len(anc.test.ops) == 1
-                        and isinstance(anc.test.left, ast.Name) and
-                        isinstance(anc.test.comparators[0], ast.Constant)
+                        and isinstance(anc.test.comparators[0], ast.Constant)
                         and anc.test.comparators[0].value is None):
                     continue
-                g_ = anc.test.left.id
-                if g_ != name and not pure_guard(g_):
+                if isinstance(anc.test.left, ast.Name):
+                    g_ = anc.test.left.id
+                    if g_ != name and not pure_guard(g_):
+                        continue
+                elif not _is_guard_source(anc.test.left):
                     continue
                 if (isinstance(anc.test.ops[0], ast.Is) and
                         asg in anc.body) or (
@@ -115,7 +132,7 @@ def guard_idiom(model, fi, name):
     return has_guard
 
 
-def returns_guard(model, fi, _depth=0):
+def returns_guard(model, fi, _depth=0, call=None):
     """Does every return of fi return a local bound by the
     guard-or-fallback idiom?"""
     if _depth > 2:
@@ -123,13 +140,43 @@ def returns_guard(model, fi, _depth=0):
     rets = [n for n in own_nodes(fi.node) if isinstance(n, ast.Return)]
     if not rets:
         return False
+    guard_params = set()
+    if call is not None:
+        # the guard itself is handed in:  attribute_getter(md.guarded_getattr)
+        ps = fi.params()
+        if fi.cls is not None and ps and ps[0] == 'self':
+            ps = ps[1:]
+        for p_, a_ in zip(ps, call.args):
+            if _is_guard_source(a_):
+                guard_params.add(p_)
+
     def pure_guard(name):
         defs = model.local_defs(fi, name)
+        if name in guard_params and all(d == 'param' for d in defs):
+            return True
         return bool(defs) and all(isinstance(d, ast.AST) and
                                   _is_guard_source(d) for d in defs)
+
+    def ifexp_idiom(v):
+        # getattr if g is None else g  /  g if g is not None else getattr
+        if not (isinstance(v, ast.IfExp) and isinstance(
+                v.test, ast.Compare) and len(v.test.ops) == 1 and
+                isinstance(v.test.left, ast.Name) and
+                pure_guard(v.test.left.id) and isinstance(
+                    v.test.comparators[0], ast.Constant) and
+                v.test.comparators[0].value is None):
+            return False
+        g_ = v.test.left.id
+        a_, b_ = (v.body, v.orelse) if isinstance(v.test.ops[0], ast.Is) \
+            else ((v.orelse, v.body) if isinstance(v.test.ops[0], ast.IsNot)
+                  else (None, None))
+        return a_ is not None and norm(a_) == 'getattr' and norm(b_) == g_
     guard_returned = False
     for r in rets:
         v = r.value
+        if ifexp_idiom(v):
+            guard_returned = True
+            continue
         if isinstance(v, ast.Name) and guard_idiom(model, fi, v.id):
             guard_returned = True
             continue
